@@ -27,6 +27,47 @@ type runner struct {
 	k int
 	w *world
 	g *gen
+	// oracle failures of the op in progress: released by line() once the backend is known to be
+	// intact (a backend that lost a committed batch makes every later answer meaningless)
+	pending []pendingFail
+	nLines  int
+}
+
+type pendingFail struct{ key, msg string }
+
+// abortCase stops a case whose disk backend no longer holds what was committed to it.
+type abortCase struct{ msg string }
+
+func (r *runner) fail(key string, format string, a ...any) {
+	r.pending = append(r.pending, pendingFail{key, fmt.Sprintf(format, a...)})
+}
+
+// backendIntact compares a full scan of a disk backend with everything committed to it.
+func (r *runner) backendIntact() (bool, string) {
+	n := r.w.nodes[0]
+	if n.kind == "mem" {
+		return true, ""
+	}
+	got, _ := realSeek(n.st, seekRange{})
+	want := specSeek(n.own, seekRange{})
+	if sameKVs(got, want) {
+		return true, ""
+	}
+	return false, fmt.Sprintf("backend %s holds %s, committed: %s", n.kind, showKVs(got), showKVs(want))
+}
+
+// line emits one op line; before that the backend is verified and the op's oracle failures released.
+func (r *runner) line(op, obs string) {
+	if ok, msg := r.backendIntact(); !ok {
+		r.pending = nil
+		panic(abortCase{fmt.Sprintf("after %d lines, at op %q: %s", r.nLines, op, msg)})
+	}
+	for _, p := range r.pending {
+		r.o.Fail(p.key, r.k, "%s", p.msg)
+	}
+	r.pending = nil
+	r.o.Line(op, obs)
+	r.nLines++
 }
 
 func b01(b bool) string {
@@ -90,7 +131,7 @@ func (r *runner) checkSeek(what string, id int, sr seekRange, got []kv) {
 	if sameKVs(got, want) {
 		return
 	}
-	r.o.Fail("seek-mismatch", r.k, "%s store=%d backend=%s prefix=%s start=%s bw=%v depth=%d cut=%v lim=%d got %s want %s",
+	r.fail("seek-mismatch", "%s store=%d backend=%s prefix=%s start=%s bw=%v depth=%d cut=%v lim=%d got %s want %s",
 		what, id, w.nodes[0].kind, hx.Hex(sr.pfx), hx.Hex(sr.start), sr.bw, sr.depth, sr.cut, sr.lim, showKVs(got), showKVs(want))
 }
 
@@ -104,11 +145,11 @@ func (r *runner) opSeek(id int, sr seekRange) {
 	obs := showKVs(got)
 	if pan {
 		obs = "panic"
-		r.o.Fail("seek-panic", r.k, "Seek panicked store=%d prefix=%s", id, hx.Hex(sr.pfx))
+		r.fail("seek-panic", "Seek panicked store=%d prefix=%s", id, hx.Hex(sr.pfx))
 	} else {
 		r.checkSeek("Seek", id, sr, got)
 	}
-	r.o.Line(r.seekLine("seek", id, sr), obs)
+	r.line(r.seekLine("seek", id, sr), obs)
 	r.countSeek("seek", id, sr, got)
 }
 
@@ -119,7 +160,7 @@ func (r *runner) opSeekAsync(id int, sr seekRange) {
 	}, sr.lim)
 	r.checkSeek("SeekAsync", id, sr, got)
 	r.checkTail("SeekAsync", id, sr, got, tail)
-	r.o.Line(r.seekLine("seeka", id, sr), showKVs(got))
+	r.line(r.seekLine("seeka", id, sr), showKVs(got))
 	r.countSeek("seeka", id, sr, got)
 }
 
@@ -133,7 +174,7 @@ func (r *runner) checkTail(what string, id int, sr seekRange, got, tail []kv) {
 	want := specSeek(r.w.view(id, sr.depth), full)
 	all := append(append([]kv{}, got...), tail...)
 	if len(all) > len(want) || !sameKVs(all, want[:len(all)]) {
-		r.o.Fail("seek-async-tail", r.k, "%s store=%d: items after cancel do not continue the sequence: got %s + %s", what, id, showKVs(got), showKVs(tail))
+		r.fail("seek-async-tail", "%s store=%d: items after cancel do not continue the sequence: got %s + %s", what, id, showKVs(got), showKVs(tail))
 	}
 }
 
@@ -157,7 +198,7 @@ func (r *runner) opDaoSeek(id int, sr seekRange, async bool) {
 	full.pfx = append(bytes.Clone(daoPrefix), sr.pfx...)
 	full.cut = true
 	r.checkSeek("dao."+op, id, full, got)
-	r.o.Line(fmt.Sprintf("%s %d 70 %d %s %s %s %d %d", op, id, daoID, hx.Hex(sr.pfx), hx.Hex(sr.start), b01(sr.bw), sr.depth, sr.lim), showKVs(got))
+	r.line(fmt.Sprintf("%s %d 70 %d %s %s %s %d %d", op, id, daoID, hx.Hex(sr.pfx), hx.Hex(sr.start), b01(sr.bw), sr.depth, sr.lim), showKVs(got))
 	r.countSeek(op, id, full, got)
 }
 
@@ -252,9 +293,9 @@ func (r *runner) opGet(id int, k []byte) {
 	}
 	want, ok := r.w.view(id, 0)[string(k)]
 	if ok != (err == nil) || (ok && !bytes.Equal(want, v)) {
-		r.o.Fail("get-mismatch", r.k, "Get store=%d key=%s got %s want found=%v %s", id, hx.Hex(k), obs, ok, hx.Hex(want))
+		r.fail("get-mismatch", "Get store=%d key=%s got %s want found=%v %s", id, hx.Hex(k), obs, ok, hx.Hex(want))
 	}
-	r.o.Line(fmt.Sprintf("get %d %s", id, hx.Hex(k)), obs)
+	r.line(fmt.Sprintf("get %d %s", id, hx.Hex(k)), obs)
 	r.o.Count("op:get")
 	if ok {
 		r.o.Count("get:found")
@@ -276,7 +317,7 @@ func (r *runner) opPut(id int, k, v []byte, viaDao bool) {
 	if obs == "ok" {
 		n.own[string(k)] = append([]byte{}, v...)
 	}
-	r.o.Line(fmt.Sprintf("put %d %s %s", id, hx.Hex(k), hx.Hex(v)), obs)
+	r.line(fmt.Sprintf("put %d %s %s", id, hx.Hex(k), hx.Hex(v)), obs)
 	r.o.Count("op:put")
 }
 
@@ -293,7 +334,7 @@ func (r *runner) opDel(id int, k []byte, viaDao bool) {
 	if obs == "ok" {
 		n.own[string(k)] = nil
 	}
-	r.o.Line(fmt.Sprintf("del %d %s", id, hx.Hex(k)), obs)
+	r.line(fmt.Sprintf("del %d %s", id, hx.Hex(k)), obs)
 	r.o.Count("op:del")
 }
 
@@ -339,7 +380,7 @@ func (r *runner) opChangeSet(id int, es []kv) {
 			}
 		}
 	}
-	r.o.Line(sb.String(), obs)
+	r.line(sb.String(), obs)
 	r.o.Count("op:changeset")
 	if !n.cached() {
 		r.o.Count("changeset:to-backend")
@@ -392,7 +433,7 @@ func (r *runner) dumps(ids []int) []string {
 func (r *runner) compareDumps(when string, ids []int, before, after []string) {
 	for i := range ids {
 		if before[i] != after[i] {
-			r.o.Fail("flush-changes-answer", r.k, "%s: the answers of store %d changed across the flush step", when, ids[i])
+			r.fail("flush-changes-answer", "%s: the answers of store %d changed across the flush step", when, ids[i])
 			return
 		}
 	}
@@ -421,7 +462,7 @@ func (r *runner) opPersist(id int, sync bool) {
 		return fmt.Sprintf("%d", cnt)
 	})
 	if cnt != len(n.own) && obs != "panic" {
-		r.o.Fail("persist-count", r.k, "Persist store=%d returned %d keys, %d pending", id, cnt, len(n.own))
+		r.fail("persist-count", "Persist store=%d returned %d keys, %d pending", id, cnt, len(n.own))
 	}
 	if cnt > 0 {
 		w.flush(n.own, w.nodes[n.ps])
@@ -431,7 +472,7 @@ func (r *runner) opPersist(id int, sync bool) {
 		}
 	}
 	r.compareDumps(op, views, before, r.dumps(views))
-	r.o.Line(fmt.Sprintf("%s %d", op, id), obs)
+	r.line(fmt.Sprintf("%s %d", op, id), obs)
 	r.o.Count("op:" + op)
 	if cnt == 0 {
 		r.o.Count("persist:empty")
@@ -477,7 +518,7 @@ func (r *runner) opPausedPersist(id int, fail bool) {
 	cnt := len(n.own)
 	n.own = map[string][]byte{}
 	n.ps = t.id
-	r.o.Line(fmt.Sprintf("pbegin %d %d", id, t.id), fmt.Sprintf("%d", cnt))
+	r.line(fmt.Sprintf("pbegin %d %d", id, t.id), fmt.Sprintf("%d", cnt))
 	r.compareDumps("persist window 1 (swapped out, not written)", views, before, r.dumps(views))
 	r.windowOps(id, views)
 	before = r.dumps(views)
@@ -496,14 +537,14 @@ func (r *runner) opPausedPersist(id int, fail bool) {
 		n.own = t.own
 		n.ps = t.ps
 		t.own = map[string][]byte{}
-		r.o.Line(fmt.Sprintf("pfail %d", id), obs)
+		r.line(fmt.Sprintf("pfail %d", id), obs)
 		r.compareDumps("failed persist", views, before, r.dumps(views))
 		r.o.Count("op:persist-paused-fail")
 		return
 	}
 	<-n.pause.written
 	w.flush(t.own, w.nodes[t.ps])
-	r.o.Line(fmt.Sprintf("pwrite %d", id), "ok")
+	r.line(fmt.Sprintf("pwrite %d", id), "ok")
 	r.compareDumps("persist window 2 (written, ps not restored)", views, before, r.dumps(views))
 	r.windowOps(id, views)
 	before = r.dumps(views)
@@ -515,7 +556,7 @@ func (r *runner) opPausedPersist(id int, fail bool) {
 	if rs.err != nil || rs.n != cnt {
 		obs = fmt.Sprintf("bad %d %v", rs.n, rs.err)
 	}
-	r.o.Line(fmt.Sprintf("pend %d", id), obs)
+	r.line(fmt.Sprintf("pend %d", id), obs)
 	r.compareDumps("persist end", views, before, r.dumps(views))
 	r.o.Count("op:persist-paused")
 }
@@ -563,7 +604,7 @@ func (r *runner) opPersistPrivate(id int, privs []int) {
 		return fmt.Sprint(n.d.Store.PersistPrivate(ms...))
 	})
 	if obs != fmt.Sprint(total) {
-		r.o.Fail("persist-count", r.k, "PersistPrivate store=%d returned %s, %d pending", id, obs, total)
+		r.fail("persist-count", "PersistPrivate store=%d returned %s, %d pending", id, obs, total)
 	}
 	if total > 0 {
 		for _, p := range privs {
@@ -576,7 +617,7 @@ func (r *runner) opPersistPrivate(id int, privs []int) {
 		// with one private nothing else is written: every view through it keeps its answers
 		r.compareDumps("PersistPrivate", w.above(privs[0]), pick(views, before, w.above(privs[0])), r.dumps(w.above(privs[0])))
 	}
-	r.o.Line(fmt.Sprintf("ppriv %d %s", id, strings.Join(args, " ")), obs)
+	r.line(fmt.Sprintf("ppriv %d %s", id, strings.Join(args, " ")), obs)
 	r.o.Count("op:persistprivate")
 }
 
@@ -626,14 +667,14 @@ func (r *runner) opSeekGC(id int, sr seekRange, mod int) {
 	}
 	want := specSeek(own, sr)
 	if !sameKVs(got, want) {
-		r.o.Fail("seekgc-mismatch", r.k, "SeekGC store=%d kind=%s prefix=%s start=%s bw=%v lim=%d mod=%d got %s want %s", id, n.kind, hx.Hex(sr.pfx), hx.Hex(sr.start), sr.bw, sr.lim, mod, showKVs(got), showKVs(want))
+		r.fail("seekgc-mismatch", "SeekGC store=%d kind=%s prefix=%s start=%s bw=%v lim=%d mod=%d got %s want %s", id, n.kind, hx.Hex(sr.pfx), hx.Hex(sr.start), sr.bw, sr.lim, mod, showKVs(got), showKVs(want))
 	}
 	for _, e := range got {
 		if !keepKey(e.k, mod) {
 			delete(n.own, string(e.k))
 		}
 	}
-	r.o.Line(fmt.Sprintf("gc %d %s %s %s %d %d", id, hx.Hex(sr.pfx), hx.Hex(sr.start), b01(sr.bw), sr.lim, mod), obs)
+	r.line(fmt.Sprintf("gc %d %s %s %s %d %d", id, hx.Hex(sr.pfx), hx.Hex(sr.start), b01(sr.bw), sr.lim, mod), obs)
 	r.o.Count("op:seekgc")
 }
 
@@ -672,7 +713,7 @@ func (r *runner) readable() []int {
 // buildTree creates the layers of a case: depth 1-4, shared and private, sometimes with siblings.
 func (r *runner) buildTree() {
 	w, g := r.w, r.g
-	r.o.Line(fmt.Sprintf("new 0 %s", w.nodes[0].kind), "ok")
+	r.line(fmt.Sprintf("new 0 %s", w.nodes[0].kind), "ok")
 	depth := g.r.Range(1, 4)
 	top := 0
 	for d := 0; d < depth; d++ {
@@ -681,7 +722,7 @@ func (r *runner) buildTree() {
 			priv = true
 		}
 		n := w.addLayer(top, priv)
-		r.o.Line(fmt.Sprintf("layer %d %d %s", n.id, n.ps, b01(priv)), "ok")
+		r.line(fmt.Sprintf("layer %d %d %s", n.id, n.ps, b01(priv)), "ok")
 		top = n.id
 	}
 	// siblings: more private layers over some shared store
@@ -691,7 +732,7 @@ func (r *runner) buildTree() {
 			continue
 		}
 		n := w.addLayer(ps, true)
-		r.o.Line(fmt.Sprintf("layer %d %d 1", n.id, n.ps), "ok")
+		r.line(fmt.Sprintf("layer %d %d 1", n.id, n.ps), "ok")
 	}
 	r.o.Count(fmt.Sprintf("tree:depth=%d", depth))
 	r.o.Count("tree:backend=" + w.nodes[0].kind)
@@ -798,7 +839,7 @@ func (r *runner) randomOp() {
 		if w.depthOf(ps) < 4 && !w.nodes[ps].dead && len(w.nodes) < 12 {
 			priv := g.r.Chance(2, 3)
 			n := w.addLayer(ps, priv)
-			r.o.Line(fmt.Sprintf("layer %d %d %s", n.id, n.ps, b01(priv)), "ok")
+			r.line(fmt.Sprintf("layer %d %d %s", n.id, n.ps, b01(priv)), "ok")
 			r.o.Count("op:newlayer")
 		}
 	}
@@ -818,7 +859,35 @@ func (r *runner) finalChecks() {
 	}
 }
 
+// runCase runs one case. A disk backend that stops holding what was committed to it aborts the
+// case (no further lines); the case is then re-run on a scratch output: if the loss does not
+// reproduce it is the timing-dependent LevelDB defect (key leveldb-lost-commit, see
+// known-findings.txt), if it does it is reported under backend-content-mismatch.
 func runCase(o *hx.Out, f *hx.Flags, k int, kind string, nops int, corpus func(r *runner)) {
+	msg, aborted := runCaseOnce(o, f, k, kind, nops, corpus)
+	if !aborted {
+		return
+	}
+	scratch, _ := os.MkdirTemp("", "verif-store-rerun-")
+	defer os.RemoveAll(scratch)
+	reproduced := 0
+	for i := 0; i < 2; i++ {
+		so := hx.NewOut(scratch)
+		m2, ab2 := runCaseOnce(so, f, k, kind, nops, corpus)
+		so.Close()
+		if ab2 && m2 == msg {
+			reproduced++
+		}
+	}
+	if reproduced == 2 || kind != "level" {
+		o.Fail("backend-content-mismatch", k, "%s", msg)
+	} else {
+		o.Fail("leveldb-lost-commit", k, "%s (not reproduced by %d re-runs of the same case: timing-dependent)", msg, 2-reproduced)
+		o.Count("oracle:leveldb-lost-commit")
+	}
+}
+
+func runCaseOnce(o *hx.Out, f *hx.Flags, k int, kind string, nops int, corpus func(r *runner)) (msg string, aborted bool) {
 	w, err := newWorld(kind)
 	if err != nil {
 		fmt.Fprintln(os.Stderr, "cannot create backend:", err)
@@ -826,11 +895,41 @@ func runCase(o *hx.Out, f *hx.Flags, k int, kind string, nops int, corpus func(r
 	}
 	defer w.close()
 	r := &runner{o: o, k: k, w: w, g: &gen{r: prng.ForCase(f.Seed, k)}}
+	defer func() {
+		if e := recover(); e != nil {
+			ac, ok := e.(abortCase)
+			if !ok {
+				panic(e)
+			}
+			// leave no goroutine stuck in a paused persist
+			for _, n := range w.nodes {
+				if n.pause != nil {
+					n.pause.mode.Store(0)
+					select {
+					case n.pause.goWrite <- struct{}{}:
+					default:
+					}
+					select {
+					case <-n.pause.written:
+					case <-time.After(50 * time.Millisecond):
+					}
+					select {
+					case n.pause.goOn <- struct{}{}:
+					default:
+					}
+				}
+			}
+			msg, aborted = ac.msg, true
+		}
+	}()
 	o.Case(k)
 	if corpus != nil {
 		corpus(r)
+		for _, p := range r.pending {
+			o.Fail(p.key, k, "%s", p.msg)
+		}
 		o.Sample(fmt.Sprintf("case %d: corpus case on backend %s", k, kind))
-		return
+		return "", false
 	}
 	r.buildTree()
 	for i := 0; i < nops; i++ {
@@ -841,10 +940,18 @@ func runCase(o *hx.Out, f *hx.Flags, k int, kind string, nops int, corpus func(r
 		}
 	}
 	r.finalChecks()
+	if ok, m := r.backendIntact(); !ok {
+		panic(abortCase{"at the end of the case: " + m})
+	}
+	for _, p := range r.pending {
+		o.Fail(p.key, k, "%s", p.msg)
+	}
+	r.pending = nil
 	o.Seen(fmt.Sprintf("%d", k))
 	if o.Cases <= 8 {
 		o.Sample(fmt.Sprintf("case %d: backend %s, %d stores, %d ops, %d keys in use", k, kind, len(w.nodes), nops, len(r.g.pool)))
 	}
+	return "", false
 }
 
 func main() {
@@ -859,6 +966,17 @@ func main() {
 			}
 			k++
 		}
+	}
+	// concurrency cases: readers racing Persist (oracle only)
+	for i, n := 0, f.N(40, 1500); i < n; i++ {
+		if f.Want(k) {
+			kind := "mem"
+			if i%10 == 9 {
+				kind = "bolt"
+			}
+			runConcCase(o, f, k, kind)
+		}
+		k++
 	}
 	nMem := f.N(1500, 60000)
 	nDisk := f.N(150, 6000)
